@@ -40,7 +40,7 @@ impl idlc_codegen::functions::ParameterVisitor for Invoke {
         let mut obj_args = String::new();
         for _ in 0..cnt.into() {
             let idx = self.0.idx();
-            obj_args.push_str(&format!(r"a[{idx}].o,"));
+            obj_args.push_str(&format!(r"{ty}(a[{idx}].o),"));
         }
         self.0.pre.push(format!(
             r#" \
@@ -106,7 +106,7 @@ impl idlc_codegen::functions::ParameterVisitor for Invoke {
         let mut obj_assign = String::new();
         for i in 0..cnt.into() {
             let idx = self.0.idx();
-            objs.push_str("Object_NULL, ");
+            objs.push_str(&format!("{ty}(Object_NULL), "));
             obj_assign.push_str(&format!(
                 r#"
                 {ARGS}[{idx}].o=p_{ident}[{i}].extract();"#
